@@ -15,6 +15,8 @@ NOTES = {
     "C05-2": "first run was INCONCLUSIVE (harness: extent_of of a generated value that cannot be sealed in a u8 offset); generator fixed, then caught",
     "C09-3p": "missed at first: every `assert!(!poisoned)` panic was classified as the documented refusal of a poisoned sender; now only cases with a write fault may end in that refusal (false alarm list #8)",
     "C15-3t": "missed at first: the harness re-validated FlatWrap's bytes before inspecting the wrapper, which hid the inconsistent wrapper; it is now inspected as returned (false alarm list #9)",
+    "C14-4e": "missed at first by C14 (caught by C15, whose clause it also breaks): the history engine only constructs values that fit; new 'construct' sub-workload emplaces into slices of every length and watches the bytes behind the last whole multiple of the alignment",
+    "C17-4j": "missed at first: needs a definition that is declared portable but has a native last field, which does not compile on the unchanged tree unless it is generic; the zoo now has generic portable definitions instantiated with native arguments and probes `impl Portable` by autoref specialisation",
     "C10-2": "first run reported through a stale oracle parameter (buffer capacity of the case vs. of the oracle); fixed, then caught as the panic it is",
 }
 
